@@ -112,3 +112,25 @@ Section Examples6r.
   Proof. vm_compute. repeat split. Qed.
 End Examples6r.
 Print Assumptions C06_response_time_metric_accounts_for_exactly_the_attempts.
+
+(* ---- the jitter as a statement about two runs (Proofs/C06Rel.v) ----
+   Change the random numbers drawn for the back-off in any way: the two runs are the same action for action - the same
+   number of attempts, requests with the same bytes, events, metrics, storage operations, policy questions, replies -
+   except for the duration of a relative wait.  Together with the retry monitor (every back-off wait lies in its
+   window) this is the whole effect of the randomisation.  (`aeq`: equal, or both a relative wait.) *)
+Require Import Verif.Proofs.C06Rel.
+Theorem C06_the_random_draws_influence_nothing_but_the_length_of_the_waits :
+  forall ep cfg url cup apps e draws draws',
+    Forall2 C06Rel.aeq (run_case ep cfg url cup apps (setb e draws)) (run_case ep cfg url cup apps (setb e draws')).
+Proof. exact draws_only_reach_the_waits. Qed.
+Print Assumptions C06_the_random_draws_influence_nothing_but_the_length_of_the_waits.
+Example C06_aeq_is_tight :
+  C06Rel.aeq (ATimer (WFor 1500000000)) (ATimer (WFor 500000000))
+  /\ ~ C06Rel.aeq (ATimer (WUntil (PMono 1))) (ATimer (WUntil (PMono 2)))
+  /\ ~ C06Rel.aeq (AMetric (MRequestsPerCheck 1 true)) (AMetric (MRequestsPerCheck 2 true)).
+Proof.
+  repeat split.
+  - right. eexists _, _. split; reflexivity.
+  - intros [H|(d1 & d2 & H1 & H2)]; discriminate.
+  - intros [H|(d1 & d2 & H1 & H2)]; discriminate.
+Qed.
